@@ -28,6 +28,20 @@ class _Moment(datetime):
     """a subclass of datetime"""
 
 
+def pytz_local(tz, naive, fold=0):
+    """the pytz value for a wall time, in the reading of RFC 5545 3.3.5 / PEP 495: a wall time that occurs twice is its first occurrence
+    (fold=1: the second), one that does not occur takes the offset before the gap (fold=1: the one after it)"""
+    a, b = tz.localize(naive, is_dst=True), tz.localize(naive, is_dst=False)
+    if a.utcoffset() == b.utcoffset():
+        return a
+    try:
+        return tz.localize(naive, is_dst=None)
+    except pytz.AmbiguousTimeError:
+        return max(a, b) if fold else min(a, b)
+    except pytz.NonExistentTimeError:
+        return min(a, b) if fold else max(a, b)
+
+
 def dec(x, provider=None):
     k = x["k"]
     if k == "none":
@@ -47,7 +61,9 @@ def dec(x, provider=None):
         src = x.get("src") or (provider or tzp.name)
         naive = datetime(*x["v"])
         if src == "pytz":
-            return pytz.timezone(x["tz"]).localize(naive, is_dst=bool(x.get("is_dst", False)))  # pytz default, as the parser does
+            if "is_dst" in x:
+                return pytz.timezone(x["tz"]).localize(naive, is_dst=bool(x["is_dst"]))
+            return pytz_local(pytz.timezone(x["tz"]), naive, x.get("fold", 0))
         if src == "dateutil":
             return naive.replace(tzinfo=dateutil.tz.gettz(x["tz"]), fold=x.get("fold", 0))
         return naive.replace(tzinfo=zoneinfo.ZoneInfo(x["tz"]), fold=x.get("fold", 0))
